@@ -447,17 +447,18 @@ Proof.
   - (* LAcl *) unfold send_acl in H. destruct (conn_by_handle c h) as [[[|] k]|]; [| |inversion H; subst; assumption].
     + destruct (find_le cs (k_peer k)); inversion H; subst; assumption.
     + destruct (find_classic cs (k_peer k)); inversion H; subst; assumption.
-  - (* LDisconnect *) unfold disconnect in H. destruct (by_handle (c_cl c) h) as [k|].
-    + destruct (find_classic cs (k_peer k)); inversion H; subst; [now apply cinv_del_cl | assumption].
-    + destruct (by_handle (c_le c) h) as [k|]; [|inversion H; subst; assumption].
-      destruct (find_le cs (k_peer k)); inversion H; subst; [now apply cinv_del_le | assumption].
+  - (* LDisconnect *) unfold disconnect in H. destruct (conn_by_handle c h); [|inversion H; subst; assumption].
+    destruct (by_handle (c_cl c) h) as [k|].
+    + inversion H; subst. now apply cinv_del_cl.
+    + destruct (by_handle (c_le c) h) as [k|]; inversion H; subst; [now apply cinv_del_le | assumption].
   - (* LClConnect *) unfold cl_connect in H. destruct (c_pending c); [inversion H; subst; assumption|].
+    match type of H with (if ?b then _ else _) = _ => destruct b end; [inversion H; subst; assumption|].
+    assert (I1 : cinv (set_cl c (tbl_set (c_cl c) (mkConn peer (c_public c) 0 true)))) by (apply cinv_set_cl; auto).
     destruct (find_classic cs peer); inversion H; subst.
     + eapply cinv_same_tables with (c := set_cl c (tbl_set (c_cl c) (mkConn peer (c_public c) 0 true)));
-        [reflexivity | reflexivity |]. apply cinv_set_cl; auto.
-    + apply cinv_set_cl; auto.
+        [reflexivity | reflexivity | exact I1].
+    + apply (cinv_del_cl _ peer) in I1. eapply cinv_same_tables; [| | exact I1]; reflexivity.
   - (* LClAccept *) unfold cl_accept in H. destruct (tbl_get (c_cl c) peer); [|inversion H; subst; assumption].
-    destruct (find_classic cs peer); [|inversion H; subst; assumption].
     destruct (classic_complete c peer) as [c1 e1] eqn:Hc. inversion H; subst.
     eapply cinv_classic_complete; eassumption.
 Qed.
@@ -712,26 +713,28 @@ Proof.
     + destruct (find_classic cs (k_peer k)); inversion H; subst; [|trivial_msg].
       split; [split; reflexivity|]. split; [assumption|].
       intros ps pd px [Hin|[]]. inversion Hin; subst. split; reflexivity.
-  - (* LDisconnect *) unfold disconnect in H. destruct (by_handle (c_cl c) h) as [k|].
-    + destruct (find_classic cs (k_peer k)); inversion H; subst; [|trivial_msg].
-      split; [split; reflexivity|]. split; [keep_ainv|].
-      intros ps pd px [Hin|[]]. inversion Hin; subst. split; reflexivity.
+  - (* LDisconnect *) unfold disconnect in H. destruct (conn_by_handle c h); [|inversion H; subst; trivial_msg].
+    destruct (by_handle (c_cl c) h) as [k|].
+    + inversion H; subst. split; [split; reflexivity|]. split; [keep_ainv|].
+      intros ps pd px Hin. destruct (find_classic cs (k_peer k)); [|contradiction].
+      destruct Hin as [Hin|[]]. inversion Hin; subst. split; reflexivity.
     + destruct (by_handle (c_le c) h) as [k|] eqn:Bh; [|inversion H; subst; trivial_msg].
-      destruct (find_le cs (k_peer k)); inversion H; subst; [|trivial_msg].
-      split; [split; reflexivity|]. split; [now apply ainv_le_del|].
-      intros ps pd px [Hin|[]]. inversion Hin; subst. split; [reflexivity|]. simpl.
+      inversion H; subst. split; [split; reflexivity|]. split; [now apply ainv_le_del|].
+      intros ps pd px Hin. destruct (find_le cs (k_peer k)); [|contradiction].
+      destruct Hin as [Hin|[]]. inversion Hin; subst. split; [reflexivity|]. simpl.
       apply by_handle_in in Bh. exact (ai_self c I _ (proj1 Bh)).
   - (* LClConnect *) unfold cl_connect in H. destruct (c_pending c); [inversion H; subst; trivial_msg|].
+    match type of H with (if ?b then _ else _) = _ => destruct b end; [inversion H; subst; trivial_msg|].
     destruct (find_classic cs peer); inversion H; subst.
     + split; [split; reflexivity|]. split; [keep_ainv|].
       intros ps pd px [Hin|[]]. inversion Hin; subst. split; reflexivity.
     + split; [split; reflexivity|]. split; [keep_ainv | intros ? ? ? []].
   - (* LClAccept *) unfold cl_accept in H. destruct (tbl_get (c_cl c) peer); [|inversion H; subst; trivial_msg].
-    destruct (find_classic cs peer); [|inversion H; subst; trivial_msg].
     destruct (classic_complete c peer) as [c1 e1] eqn:Hc. inversion H; subst.
     apply classic_complete_addr in Hc. destruct Hc as [Ha [Hle Hse]].
     split; [exact Ha|]. split; [eapply ainv_same_le_sets; eauto|].
-    intros ps pd px [Hin|[]]. inversion Hin; subst. split; reflexivity.
+    intros ps pd px Hin. destruct (find_classic cs peer); [|contradiction].
+    destruct Hin as [Hin|[]]. inversion Hin; subst. split; reflexivity.
   - (* LDeliver *) inversion H; subst. trivial_msg.
 Qed.
 
@@ -1218,7 +1221,7 @@ Theorem disconnect_le : forall s i j ci cj e e' r, ginv s ->
 Proof.
   intros s i j ci cj e e' r I Hi He Hj He' Hm.
   destruct (g_c s I _ _ Hi) as [Ci Ai].
-  unfold step. simpl label_ctrl. cbv iota. rewrite Hi. simpl local. unfold disconnect.
+  unfold step. simpl label_ctrl. cbv iota. rewrite Hi. simpl local. unfold disconnect, conn_by_handle.
   rewrite (le_handle_not_classic ci e _ Ci He eq_refl).
   rewrite (by_handle_of_in ci e Ci He).
   rewrite <- Hm. rewrite (find_le_holder s j cj e' I Hj He'). rewrite Hm. reflexivity.
@@ -1245,7 +1248,15 @@ Theorem disconnect_classic : forall s i j ci cj e r, ginv s ->
 Proof.
   intros s i j ci cj e r I Hi He Hnz Hj Hm.
   destruct (g_c s I _ _ Hi) as [Ci Ai].
-  unfold step. simpl label_ctrl. cbv iota. rewrite Hi. simpl local. unfold disconnect.
+  unfold step. simpl label_ctrl. cbv iota. rewrite Hi. simpl local. unfold disconnect, conn_by_handle.
+  assert (Hle0 : by_handle (c_le ci) (k_handle e) = None).
+  { destruct (by_handle (c_le ci) (k_handle e)) as [k2|] eqn:B; [|reflexivity]. exfalso.
+    apply by_handle_in in B. destruct B as [B1 B2].
+    pose proof (ci_distinct ci Ci _ Hnz) as Hd. unfold handles in Hd. rewrite count_app in Hd.
+    assert (1 <= count (k_handle e) (map k_handle (c_le ci)))%nat by (apply count_pos_in; rewrite <- B2; now apply in_map).
+    assert (1 <= count (k_handle e) (map k_handle (c_cl ci)))%nat by (apply count_pos_in; now apply in_map).
+    lia. }
+  rewrite Hle0.
   assert (Hcl : by_handle (c_cl ci) (k_handle e) = Some e).
   { destruct (by_handle (c_cl ci) (k_handle e)) as [k2|] eqn:B; [|exfalso; eapply by_handle_none; eauto].
     apply by_handle_in in B. destruct B as [B1 B2].
